@@ -434,7 +434,7 @@ def serve_main(batchfile):
                 results[job["tag"]] = {"rc": None, "out": "", "skipped": "no snapshot %s" % src}
                 continue
             shutil.copytree(src, job["prefix"])
-        rc, out = _fork_run(job, batch.get("victim_timeout", 120))
+        rc, out = _fork_run(job, batch.get("victim_timeout", 240))
         results[job["tag"]] = {"rc": rc, "out": out}
     with open(batch["out"] + ".tmp", "w") as f:
         json.dump(results, f)
@@ -449,7 +449,7 @@ def run_batch(jobs, workdir, tag, timeout=300):
     bf = os.path.join(workdir, "batch-%s.json" % tag)
     of = os.path.join(workdir, "batch-%s.out.json" % tag)
     with open(bf, "w") as f:
-        json.dump({"jobs": jobs, "out": of, "victim_timeout": 120}, f)
+        json.dump({"jobs": jobs, "out": of, "victim_timeout": 240}, f)
     try:
         p = subprocess.run([PY, "-B", "-S", "-m", "vf.logx", "serve", bf], cwd=VERIF, env=child_env(),
                            capture_output=True, timeout=timeout)
